@@ -56,6 +56,11 @@ class C10(Check):
             out.append({'kind': 'huge', 'what': 'text', 'profile': prof, 'size': 11 * 1024 * 1024 if tier == 'thorough' else 10 * 1024 * 1024 + 5000})
             out.append({'kind': 'huge', 'what': 'depth', 'profile': prof, 'size': 300})
         out.append({'kind': 'schema'})
+        # over a real transport (Unix socket, both framings, huge-tree on and off): reply.xml must be the text the server framed,
+        # XML declaration / leading comment / surrounding white space included (1.0: modulo surrounding white space)
+        for i, pre in enumerate(['<?xml version="1.0" encoding="UTF-8"?>', "<?xml version='1.0'?>\n", '<!-- device banner -->', '', '  \n']):
+            for b11 in (False, True):
+                out.append({'kind': 'wire', 'pre': pre, 'base11': b11, 'huge': bool(i % 2), 'big': 11 * 1024 * 1024 if (i == 0 and b11) else 0})
         # get-schema through the reply OBJECT (async mode keeps the GetSchemaReply) and through the synchronous path, for the profiles
         # with a reply transform or a get-schema workaround; Junos also with its non-compliant <data> in the base namespace
         for prof in ('default', 'junos', 'sros', 'alu'):
@@ -73,7 +78,38 @@ class C10(Check):
             out.append({'kind': 'huge-op', 'op': op, 'size': 10 * 1024 * 1024 + 5000})
         return out
 
+    def run_wire(self, case):
+        from impl import fakeserver as FS
+        from ncclient import manager
+        body = '<data><v>é %s</v><t>%s</t></data>' % ('&lt;x&gt;', 'y' * case['big'])
+        sent = []
+
+        def handler(srv, req):
+            t = case['pre'] + '<rpc-reply message-id="%s" xmlns="%s">%s</rpc-reply>' % (FS.msg_id_of(req), BASE, body) + ('\n' if case['pre'] == '  \n' else '')
+            sent.append(t)
+            return [('send', t)]
+        caps = [c for c in FS.STD_CAPS if case['base11'] or c != FS.B11]
+        srv = FS.UnixServer(caps=caps, handler=handler)
+        try:
+            m = manager.connect_uds(path=srv.path, timeout=10)
+            m.huge_tree = case['huge'] or bool(case['big'])
+            try:
+                r = m.get()
+                return {'xml': r.xml if not case['big'] else None, 'xml_eq': r.xml == sent[0] or (not case['base11'] and r.xml == sent[0].strip()),
+                        'sent': sent[0] if not case['big'] else None, 'data_ok': r.data_ele is not None and len(r.data_xml) > case['big']}
+            except Exception as e:
+                return {'exc': type(e).__name__ + ': ' + str(e)[:80]}
+            finally:
+                try:
+                    m._session.close()
+                except Exception:
+                    pass
+        finally:
+            srv.cleanup()
+
     def run_impl(self, case):
+        if case['kind'] == 'wire':
+            return self.run_wire(case)
         from impl.rpcstub import make_manager
         from ncclient import xml_ as nx
         from ncclient.xml_ import new_ele
@@ -230,6 +266,15 @@ class C10(Check):
         return None
 
     def oracle(self, case, io):
+        if case['kind'] == 'wire':
+            tag = 'base:1.%d, prefix %r, %d-byte text' % (1 if case['base11'] else 0, case['pre'], case['big'])
+            if 'exc' in io:
+                return ('C10:reply-failed-over-transport', 'get over a Unix socket (%s) raised %s' % (tag, io['exc']))
+            if not io['xml_eq']:
+                return ('C10:raw-xml-altered', 'reply.xml is not the message the server sent (%s): got %r' % (tag, (io['xml'] or '')[:80]))
+            if not io['data_ok']:
+                return ('C10:data-not-child', 'data_ele / data_xml missing over the transport (%s)' % tag)
+            return None
         if case['kind'] == 'huge-op':
             if not io['ok'] or io['len'] < case['size']:
                 return ('C10:huge-tree-rejected:' + case['op'], '%s enables huge-tree support for its call, yet a reply with a %d-byte text node failed (%s)' % (case['op'], case['size'], io.get('exc')))
